@@ -202,12 +202,21 @@ fn bounded_class(ty: &syn::Type) -> String {
 fn wpred(p: &syn::WherePredicate) -> String {
     match p {
         syn::WherePredicate::Type(t) => format!(
-            "(wp t {} {} {})",
+            "(wp t {} {} {} {})",
             bounded_class(&t.bounded_ty),
             list("bounds", t.bounds.iter().map(|x| toks_of(x))),
-            toks_of(p)
+            toks_of(p),
+            // the `for<..>` binder in front of the predicate, as syn prints it
+            t.lifetimes
+                .as_ref()
+                .map(|l| toks_of(l))
+                .unwrap_or_else(|| toks(TokenStream::new()))
         ),
-        _ => format!("(wp f bother (bounds) {})", toks_of(p)),
+        _ => format!(
+            "(wp f bother (bounds) {} {})",
+            toks_of(p),
+            toks(TokenStream::new())
+        ),
     }
 }
 
